@@ -242,17 +242,16 @@ def run(ck, F, tier):
 
     # ---- T5: staircase agreement -----------------------------------------------
     acc = staircase.accepted_set(F)
-    wr = {"first": {repr(K - K + num(0))}, }
     # writer in terms of D = (cols - rows) = n - m = k
-    written_first = {repr(col - K) for ev, loops, row, col in found["parity"] if not loops and row == num(0)}
-    written_rest = {repr(subst(col - K, lambda nm: var("j") if nm == "L0" else None)) for ev, loops, row, col in found["parity"] if loops and row == L0}
+    written_first = {col - K for ev, loops, row, col in found["parity"] if not loops and row == num(0)}
+    written_rest = {subst(col - K, lambda nm: var("j") if nm == "L0" else None) for ev, loops, row, col in found["parity"] if loops and row == L0}
     lo_ok = all(loops[0][1] == num(1) and loops[0][2] == M for ev, loops, row, col in found["parity"] if loops)
     ok5 = (written_first == acc["first"] and written_rest == acc["rest"] and lo_ok and acc["count_ok"])
     ck.inst("T5", "staircase-agreement", ok5, hb.span,
             "writer: row 0 -> offsets %s, row j in 1..m -> offsets %s (relative to column k = n-m); is_staircase accepts row 0 -> %s, "
-            "row j!=0 -> %s and requires 2*rows-1 ones (%s)" % (sorted(written_first), sorted(written_rest), sorted(acc["first"]),
-                                                                 sorted(acc["rest"]), acc["count_ok"]),
-            {"reader": {k: sorted(v) if isinstance(v, set) else v for k, v in acc.items()}})
+            "row j!=0 -> %s and requires 2*rows-1 ones (%s)" % (sorted(map(repr, written_first)), sorted(map(repr, written_rest)), sorted(map(repr, acc["first"])),
+                                                                 sorted(map(repr, acc["rest"])), acc["count_ok"]),
+            {"reader": {k: sorted(map(repr, v)) if isinstance(v, set) else v for k, v in acc.items()}})
     # k() must be n() - m() so that "cols - rows" of the generated matrix is k
     kb = const_sym(F)
     ck.inst("T5", "k=n-m", kb, sites["k"], "k() is defined as n() - m(), so column k is the first parity column of new(m, n)")
